@@ -14,7 +14,7 @@ from . import common, evalcommon as ec
 PROPERTY = 'C17'
 
 META = {
-    'bounds': {'quick': 'record-untouched re-check after every configuration; <=3 recorded individuals (dim 2, 2 objectives), tags in {-1,0,1,2} all combinations, front numbers in 1..2; '
+    'bounds': {'quick': 'concrete gd on reference fronts of 11-150 points; record-untouched re-check after every configuration; <=3 recorded individuals (dim 2, 2 objectives), tags in {-1,0,1,2} all combinations, front numbers in 1..2; '
                         'epsilon_add on <=2 x <=2 points in <=2 dimensions',
                'thorough': '<=4 recorded individuals; epsilon_add 3x2 / 2x3 points in 2-D, 2x2 in 3-D'},
     'stubs': [],
